@@ -134,7 +134,11 @@ def build_harness(race=False):
         return _built[key]
     # the module's replace directive points at /repo; keep go.sum in step with the repository's
     try:
-        shutil.copyfile(os.path.join(REPO, "go.sum"), os.path.join(HARNESS, "go.sum"))
+        src, dst = os.path.join(REPO, "go.sum"), os.path.join(HARNESS, "go.sum")
+        if not os.path.exists(dst) or open(src, "rb").read() != open(dst, "rb").read():
+            tmp = dst + ".tmp%d" % os.getpid()
+            shutil.copyfile(src, tmp)
+            os.replace(tmp, dst)
     except OSError:
         pass
     out = os.path.join(workroot(), "bmcreplay" + ("-race" if race else "") + "-%d" % os.getpid())
